@@ -21,6 +21,11 @@ def run():
     for paths, probs in res:
         for why in probs[:1]:
             c.findings.append(Finding("bounded", "batch", why, {"files": paths, "observed": probs}, paths[0]))
+    res3 = corpus.pmap(cli.c15_config_case, jobs, chunksize=1)
+    c.bounded["shared_configuration"] = {"evaluations": len(res3) * 3, "distinct_nontrivial": len(res3), "rule": "in-process, one configuration object for two files of a globbed file_list entry with rule configuration, the first with its own file_rules entry (seeded rules): the configuration object is unchanged by apply_rules and the second file's result equals its result when processed first"}
+    for paths, probs in res3:
+        for why in probs[:1]:
+            c.findings.append(Finding("bounded", "shared_configuration", why, {"files": paths, "observed": probs}, paths[0]))
     res2 = corpus.pmap(cli.c15_state_case, jobs, chunksize=1)
     c.bounded["shared_state"] = {"evaluations": len(res2) * 8, "distinct_nontrivial": len(res2), "rule": "in-process frame contract on the real apply_rules: fingerprint of every module-level and class-level mutable container of vsg.* equal before/after processing a file that ends inside open vsg_off / translate_off / vhdl_comp_off / delimited-comment regions, and the results of 3 corpus files equal before and after"}
     for paths, probs in res2:
